@@ -25,7 +25,11 @@ META = {
     "level_note": "Narrow readings: fields compared = index, reception time, timestamp, ECU, standard header (htyp, mcnt), "
                   "extended header presence / type byte / noar / APID / CTID, payload bytes, decoded text, lifecycle; the "
                   "pseudonym tables are checked on messages whose extended header was present at the chain input (ids filled in "
-                  "by a decoder before `anon` are not observable); id populations stay far below the capacity of 999; lifecycle "
+                  "by a decoder before `anon` are not observable); pseudonym tables are driven up to and beyond the capacity of 999 per name space (sizes 257 and 1003 in quick; "
+                  "1..5, 255..257, 300, 999, 1000, 1003, 1012 in thorough) for ECUs, APIDs of one ECU and CTIDs of one ECU/APID - within the "
+                  "capacity the contract is function + injective, past it exactly the code's documented cut to 4 characters (id no. "
+                  "1000..1009 gets the pseudonym of id no. 100, ...); the file transfer plugin runs with every apid x ctid configuration "
+                  "(none | the main source | another source) x keepFLDA, FLDA-shaped messages of non-matching sources must pass; lifecycle "
                   "comparison streams contain log messages only (known defect #17 of the detector and control-message heuristics "
                   "are C05-C08's business); a detector panic on the *original* stream skips the comparison. The CAN plugin is "
                   "configured from tests/ (no CAN FIBEX there: matching traffic takes the decode-error text path). The export "
@@ -145,7 +149,11 @@ def check(ctx):
     c.tlc_must_pass(ctx, "anon-tables", "PluginsAnon.tla", "PluginsAnon_quick.cfg" if quick else "PluginsAnon_thorough.cfg",
                     timeout=3000, workers=wk)
     # (b) TLC enumerates the chains
-    chains = [s["chain"] for s in c.scn_lines(c.tlc_must_pass(ctx, "chains", "Plugins.tla", "Plugins_emit.cfg", timeout=600, workers=wk))]
+    emit = c.tlc_must_pass(ctx, "chains", "Plugins.tla", "Plugins_emit.cfg", timeout=600, workers=wk)
+    chains = [s["chain"] for s in c.scn_lines(emit)]
+    ftcfgs = sorted(c.scn_lines(emit, tag="FTCFG"), key=lambda x: (x["apid"], x["ctid"]))    # apid x ctid in none|match|other
+    if len(ftcfgs) != 9:
+        raise c.ToolError("expected 9 file transfer configurations from TLC, got %d" % len(ftcfgs))
     chains.sort(key=lambda ch: (len(ch), ch))
     chosen = pick_chains_quick(chains, rnd) if quick else chains
     if quick:       # plus a seeded sample of the remaining chains
@@ -159,7 +167,19 @@ def check(ctx):
     def add(**kw):
         kw["case"] = len(plan)
         kw.setdefault("variant", len(plan))
+        if any(k in ("ft_keep", "ft_drop") for k in kw["chain"]):
+            kw.setdefault("ft", ftcfgs[len(plan) % 9])        # rotate through the configuration space
         plan.append(kw)
+    # the file transfer plugin alone, every apid/ctid configuration x keepFLDA
+    for cfg in ftcfgs:
+        for kd in ("ft_drop", "ft_keep"):
+            add(chain=[kd], stream="mixed", ft=cfg)
+    # pseudonym tables up to and beyond the capacity, per level
+    pop_sizes = [257, 1003] if quick else [1, 2, 3, 4, 5, 255, 256, 257, 300, 999, 1000, 1003, 1012]
+    for level in ("ecu", "apid", "ctid"):
+        for size in pop_sizes:
+            add(chain=["anon"], stream="pop", level=level, size=size)
+    add(chain=["rewrite", "anon", "ft_keep"], stream="pop", level="apid", size=300)
     for j, ch in enumerate(chosen):
         add(chain=ch, stream="mixed")
         add(chain=ch, stream="mixed")          # a second shuffle / payload variant
@@ -206,7 +226,7 @@ def check(ctx):
             "text_changed": 0, "ext_filled": 0, "ts_changed": 0, "ids_changed": 0, "pay_changed": 0, "per_kind_text_changed": {},
             "per_kind_chains": {}, "stream_kinds": {}, "flda_inputs": 0, "flda_dropped_cases": 0, "chain_lengths": {},
             "lc_skipped": sum(i["lc_skipped"] for _, i in infos),
-            "matching_variant_inputs": {}, "matching_variant_decoded_alone": {}}
+            "matching_variant_inputs": {}, "matching_variant_decoded_alone": {}, "ft_config": {}, "pseudonym_population": {}}
     distinct = set()
     validated = 0
     st = None
@@ -223,10 +243,32 @@ def check(ctx):
             hits["out"] += len(outs)
             hits["dropped"] += max(0, len(ins) - len(outs)) if not any(e["ev"] == "panic" for e in evs) else 0
             hits["panic"] += sum(1 for e in evs if e["ev"] == "panic")
-            hits["flda_inputs"] += sum(1 for e in ins if e["flda"])
+            ft = h.get("ft", {"apid": "", "ctid": ""})
+
+            def from_source(e):
+                v = e["vec"]
+                return (ft["apid"] == "" or (v["ext"] == 1 and v["apid"] == ft["apid"])) and \
+                       (ft["ctid"] == "" or (v["ext"] == 1 and v["ctid"] == ft["ctid"]))
+            hits["flda_inputs"] += sum(1 for e in ins if e["fshape"])
+            if h["chain"] in (["ft_drop"], ["ft_keep"]) and h["stream"] == "mixed":
+                ck = "apid=%s,ctid=%s" % (ft["apid"] or "-", ft["ctid"] or "-")
+                outkeys = {(o["vec"]["idx"], o["vec"]["pay"]) for o in outs}
+                d = hits["ft_config"].setdefault(ck, {"flda_of_source_dropped": 0, "flda_of_source_kept": 0, "flda_of_other_source_passed": 0})
+                for e in ins:
+                    if e["fshape"]:
+                        passed = (e["vec"]["idx"], e["vec"]["pay"]) in outkeys
+                        if from_source(e):
+                            d["flda_of_source_kept" if passed else "flda_of_source_dropped"] += 1
+                        elif passed:
+                            d["flda_of_other_source_passed"] += 1
+            if h["stream"] == "pop" and k not in v.violations:
+                lv = hits["pseudonym_population"].setdefault(h["level"], {"sizes": [], "beyond_capacity_cases": 0})
+                lv["sizes"].append(h["size"])
+                if h["size"] > 999:
+                    lv["beyond_capacity_cases"] += 1
             hits["stream_kinds"][h["stream"]] = hits["stream_kinds"].get(h["stream"], 0) + 1
             hits["chain_lengths"][str(len(h["chain"]))] = hits["chain_lengths"].get(str(len(h["chain"])), 0) + 1
-            if len(ins) > len(outs) and "ft_drop" in h["chain"] and any(e["flda"] for e in ins):
+            if len(ins) > len(outs) and "ft_drop" in h["chain"] and any(e["fshape"] for e in ins):
                 hits["flda_dropped_cases"] += 1
             for kd in h["chain"]:
                 hits["per_kind_chains"][kd] = hits["per_kind_chains"].get(kd, 0) + 1
@@ -297,6 +339,13 @@ def check(ctx):
     # vacuity: every decoder must have changed some text when alone, header fill / timestamp rewrite / FLDA drop / pseudonyms
     # / multi-lifecycle comparisons must have happened
     need_text = [kd for kd in ("nonverbose", "someip", "can", "muniic", "rewrite") if hits["per_kind_text_changed"].get(kd, 0) == 0]
+    ftc = hits["ft_config"]
+    bad_ft = [k for k, d in ftc.items() if d["flda_of_source_dropped"] == 0 or d["flda_of_source_kept"] == 0
+              or (k != "apid=-,ctid=-" and d["flda_of_other_source_passed"] == 0)]
+    pp = hits["pseudonym_population"]
+    bad_pop = [lv for lv in ("ecu", "apid", "ctid") if lv not in pp or max(pp[lv]["sizes"]) < 257 or pp[lv]["beyond_capacity_cases"] == 0]
+    if len(ftc) != 9 or bad_ft or bad_pop:
+        raise c.ToolError("vacuous run: file transfer configurations %s %s / pseudonym populations %s %s" % (len(ftc), bad_ft, bad_pop, pp))
     need_var = [t for t in VARIANTS if hits["matching_variant_decoded_alone"].get(t, 0) == 0]
     if need_var:
         raise c.ToolError("vacuous run: matching traffic not decoded for header variants %s" % need_var)
@@ -312,4 +361,4 @@ def check(ctx):
     ctx.assumptions = ["TLC 1.8.0 and CommunityModules are correct",
                        "the field projection of the driver (13 observable fields per message; ids as strings, others as values or 31-bit hashes) is correct",
                        "plugins are configured from the repository's tests/ descriptions; example streams are slices of tests/*.dlt and can_example1.asc",
-                       "pseudonym populations stay below the capacity (999 per table)"]
+                       "pseudonym numbering past the capacity follows DltChar4::from_str truncation (modelled in Plugins.tla MapStepG)"]
